@@ -24,10 +24,13 @@ IDIOMS_C = [
     "static int emp ( int a ) { if ( a ) ; else g0 = 1 ; while ( g0 -- > 0 ) ; ; return g0 ; }",
     "static int lbl ( int a ) { if ( a ) goto end ; g0 = 5 ; end : ; return g0 ; }",
     "enum E2 { X1 = 1 , X2 = X1 << 2 } ;",
+    "enum E3 { Y1 , Y2\n#define E3_LAST Y2\n} ;",
+    "enum E4 { Z1 ,\n#if 1\nZ2\n#else\nZ3\n#endif\n} ;",
+    "static int e3 ( void ) { return E3_LAST + Z1 ; }",
     "struct B { unsigned int f1 : 3 ; unsigned f2 : 1 ; } ;",
     "static int neg ( int a ) { if ( ! ( a > 1 ) ) return - a ; if ( a > 2 && g0 || g1 ) return ( a ) ; return ( a == 1 ) ; }",
     "static int nest ( int a ) { if ( a ) { if ( g0 ) { g1 = 1 ; } } else { g1 = 2 ; } if ( a ) if ( g0 ) g1 = 3 ; else g1 = 4 ; return g1 ; }",
-    "static void use_all ( void ) { ( void ) mk ( 1 ) ; lp ( ) ; ( void ) fp ; ( void ) cm ( 1 ) ; ( void ) tern ( 1 ) ; ( void ) str ( ) ; ( void ) emp ( 1 ) ; ( void ) lbl ( 1 ) ; ( void ) neg ( 1 ) ; ( void ) nest ( 1 ) ; }",
+    "static void use_all ( void ) { ( void ) mk ( 1 ) ; lp ( ) ; ( void ) fp ; ( void ) cm ( 1 ) ; ( void ) tern ( 1 ) ; ( void ) str ( ) ; ( void ) emp ( 1 ) ; ( void ) lbl ( 1 ) ; ( void ) neg ( 1 ) ; ( void ) nest ( 1 ) ; ( void ) e3 ( ) ; }",
 ]
 IDIOMS_ONLY_C = [
     "static int use_lit ( int a ) { return ( ( P2 ) { a , 2 } ) . y ; }",
